@@ -29,10 +29,10 @@ Theorem C10_params_domain_matches_current_tree : validate_ok current_cfg = true.
 Proof. vm_compute. reflexivity. Qed.
 
 (** nothing sits between clearExchangeRates and clearVotesAndPrevotes that could skip the latter: the stage
-    sequence is the modelled one and UpdateExchangeRates has no early return; hence (model) a vote-period
+    sequence is the modelled one and no condition guards the call of clearVotesAndPrevotes; hence (model) a vote-period
     end always empties the Votes store *)
 Theorem C10_votes_cleared_in_current_tree :
-  cc_pipeline current_cfg = expected_pipeline /\ cc_early_returns current_cfg = 0%nat /\
+  cc_pipeline current_cfg = expected_pipeline /\ cc_clear_votes_guards current_cfg = 0%nat /\
   forall fx p e s x s' evs,
     hist_step fx p e s x = Some (s', evs) -> is_period_last (hp_h x) (p_vote_period p) = true -> hs_votes s' = [].
 Proof.
